@@ -90,7 +90,8 @@ public:
 	// Remove when this session object is a private object for this token.
 	bool removeOnTokenLogout(CK_SLOT_ID inSlotID);
 
-	// These functions are just stubs for session objects
+	// Transactions on session objects: an aborted transaction restores the
+	// attributes the object had when the transaction was started
 	virtual bool startTransaction(Access access);
 	virtual bool commitTransaction();
 	virtual bool abortTransaction();
@@ -108,6 +109,11 @@ private:
 
 	// The object's raw attributes
 	std::map<CK_ATTRIBUTE_TYPE, OSAttribute*> attributes;
+
+	// Copy of the attributes taken when a transaction was started; restored
+	// when the transaction is aborted
+	std::map<CK_ATTRIBUTE_TYPE, OSAttribute*> savedAttributes;
+	bool inTransaction;
 
 	// The object's validity state
 	bool valid;
